@@ -51,7 +51,20 @@ def target_strategy():
     base = st.one_of(lit, lit, tup, seq, strs, hk)
     comb = st.tuples(st.sampled_from(["union", "inter"]), st.one_of(strs, hk, lit), st.one_of(strs, hk, lit)).map(
         lambda t: [t[0], [t[1], t[2]]])
-    return st.one_of(base, base, base, comb)
+    # nested combinations (depth 2), members of different bounds, static classes among the members
+    member = st.one_of(strs, hk, lit, st.sampled_from([["cls", "int"], ["cls", "str"], ["cls", "dict"]]))
+    comb1 = st.tuples(st.sampled_from(["union", "inter"]), st.lists(member, min_size=2, max_size=3, unique_by=repr)).map(
+        lambda t: [t[0], t[1]])
+    comb2 = st.tuples(st.sampled_from(["union", "inter"]),
+                      st.lists(st.one_of(member, comb1, comb1), min_size=2, max_size=3, unique_by=repr)).map(
+        lambda t: [t[0], t[1]]).filter(lambda t: any(m[0] in ("union", "inter") for m in t[1]) and has_dependent(t))
+    return st.one_of(base, base, base, comb, comb2)
+
+
+def has_dependent(t):
+    if t[0] in ("union", "inter"):
+        return any(has_dependent(m) for m in t[1])
+    return t[0] != "cls"
 
 
 def case_strategy():
